@@ -302,7 +302,7 @@ def task(prop, seed, size, cfgbins, sizes=(0, 1, 2, 3, 7), reps=1):
 
 def run(prop, tier, seed, t0):
     from .. import plan
-    cfgs = ['simd', 'serial32', 'fiat64'] if tier == 'quick' else plan.ALL_CFGS
+    cfgs = ['simd', 'serial32', 'fiat64', 'avx512'] if tier == 'quick' else plan.ALL_CFGS
     bins, notes, failed = plan.bins_for(cfgs, ('rel', 'chk') if tier == 'thorough' else ('rel',))
     if failed:
         return plan.fail_build(prop, failed)
